@@ -17,7 +17,7 @@ for pid in sorted(registry.PROPS):
         "engine": "weave+verus",
         "level_claimed": {"category": sp.get("level", "proof"), "text": sp.get("level_text", ""), "design_ref": sp.get("design_ref", "DESIGN.md §5 %s" % pid)},
         "level_note": sp.get("level_note", ""),
-        "technique": sp.get("technique", "contract-based deductive verification: Verus discharges contracts woven into the real functions extracted from /repo on every run"),
+        "technique": sp.get("technique") or ("contract-based deductive verification: Verus discharges contracts woven into the real functions extracted from /repo on every run"),
     })
 na = [{"property_id": k, "reason": v} for k, v in sorted(registry.NOT_APPLICABLE.items())]
 m = {
